@@ -47,6 +47,7 @@ PINS["trace-depth counter is per thread"] = ("C20", ["regress/C20/shared-trace-c
 PINS["cumsum VJP returns a cotangent of the argument"] = ("C15", ["regress/C15/cumsum-0d-axis.json"])
 PINS["linspace VJP unbroadcasts"] = ("C01", ["regress/C01/linspace-broadcast.json"])
 PINS["linspace JVP broadcasts"] = ("C02", ["regress/C02/linspace-broadcast-jvp.json"])
+PINS["absolute has a finite"] = ("C01", ["regress/C01/absolute-at-zero.json", "regress/C02/absolute-at-zero-jvp.json"])
 EXTRA = {}
 
 
